@@ -43,6 +43,14 @@ Base(name) ==
            <<S1, PMember(UA, UA, "join"), "$D", 0>>,
            <<S1, PTopic(UC, 1), "$E", 5, {"$D"}>>,
            <<S1, PPowerLevels(UC, MkPL((UC.name :> 100) @@ (UA.name :> 50))), "$F", 0, {"$D"}>>>>
+    [] name = "powerfork" ->     \* a fork in which one sender has different power levels on the two branches: A (50) changes the
+                                 \* join rules on one branch, the creator raises A to 100 on the other
+         <<<<S1, PCreate, "$A", 0>>, <<S1, PMember(UC, UC, "join"), "$B", 0>>,
+           <<S1, PPowerLevels(UC, MkPL((UC.name :> 100) @@ (UA.name :> 50) @@ (UB.name :> 50))), "$C", 0>>,
+           <<S1, PJoinRules(UC, "public"), "$D", 0>>, <<S1, PMember(UA, UA, "join"), "$E", 0>>,
+           <<S2, PMember(UB, UB, "join"), "$F", 0>>,
+           <<S1, PJoinRules(UA, "invite"), "$G", 1, {"$F"}>>,
+           <<S1, PPowerLevels(UC, MkPL((UC.name :> 100) @@ (UA.name :> 100) @@ (UB.name :> 50))), "$H", 0, {"$F"}>>>>
     [] name = "restricted" ->    \* restricted room (v8+): A joined with 50, B outside
          <<<<S1, PCreate, "$A", 0>>, <<S1, PMember(UC, UC, "join"), "$B", 0>>,
            <<S1, PPowerLevels(UC, MkPL((UC.name :> 100) @@ (UA.name :> 50))), "$C", 0>>,
